@@ -65,7 +65,7 @@ def add_alts(rng, case):
 
 def cases(rng, tier):
     n = 9000 if tier == 'quick' else 120000
-    out = [add_alts(rng, c) for c in K.gen_checker_cases(rng, n) + K.name_family() + K.big_cases(rng, 60 if tier == 'quick' else 600) + K.alias_cases(rng, 150 if tier == 'quick' else 1500)]
+    out = [add_alts(rng, c) for c in K.gen_checker_cases(rng, n) + K.name_family() + K.big_cases(rng, 60 if tier == 'quick' else 600) + K.alias_cases(rng, 150 if tier == 'quick' else 1500) + K.cyclic_cases(rng, 120 if tier == 'quick' else 1200)]
     if tier == 'thorough':
         vals = K.small_values()
         for at in K.small_terms():
